@@ -1223,10 +1223,10 @@ impl Channel {
                 counterparty_htlc_sigs.to_vec(),
             );
             self.enforcement_state.next_holder_commit_info = Some((info2, counterparty_signatures));
+            trace_enforcement_state!(self);
+            self.persist()?;
         }
-
-        trace_enforcement_state!(self);
-        self.persist()?;
+        // a retry of the current commitment changes nothing, so there is nothing to write
 
         Ok(())
     }
@@ -2519,10 +2519,10 @@ impl Channel {
                 counterparty_htlc_sigs.to_vec(),
             );
             self.enforcement_state.next_holder_commit_info = Some((info2, counterparty_signatures));
+            trace_enforcement_state!(self);
+            self.persist()?;
         }
-
-        trace_enforcement_state!(self);
-        self.persist()?;
+        // a retry of the current commitment changes nothing, so there is nothing to write
 
         Ok(())
     }
